@@ -228,14 +228,13 @@ class RecRaw(io.RawIOBase):
         if self._f is None:
             super().close()
             return
-
-        def eff():
-            self._f.close()
-
         try:
-            self._seam.step("close", (self._short(),), eff)
+            # an error injected *before* the step leaves the descriptor open (and this object not closed);
+            # an error injected *after* it is reported although the descriptor is gone (what Linux does)
+            self._seam.step("close", (self._short(),), self._f.close)
         finally:
-            super().close()
+            if self._f.closed:
+                super().close()
 
 
 class RecText(io.TextIOWrapper):
